@@ -21,7 +21,7 @@ struct res { int len; char data[OUTSZ]; };
 static char keysA[256], keysB[256];
 static int nA, nB;
 /* regular text: every motion of the menu (with counts up to 3) succeeds from the start position and from the position of the repeat */
-static const char *FILE0 = "ab ib ab ib ab ib ab\nab ib ab ib ab ib ab\nab ib ab ib ab ib ab\nab ib ab ib ab ib ab\nab ib ab ib ab ib ab\n";
+static const char *FILE0 = "ab ib ab ib ab ib ab\nab ib ab ib ab ib ab\nab ib ab ib ab iQ ab\nab ib ab ib ab iQ ab\nab ib ab ib ab iQ ab\n";
 static void run(void *out, const char *keys, int n)
 {
 	struct res *r = out;
@@ -45,7 +45,7 @@ static int add(char *d, int n, const char *s) { int l = strlen(s); memcpy(d + n,
 void harness(void)
 {
 	static struct res ra, rb;
-	char chg[48], txt[12], pre[8];
+	char chg[48], txt[12], pre[8], junk[8];
 	int c, n = 0, tl, reps, i, pn = 0;
 	/* symbolic pieces */
 	tl = slots_text(txt, "txt", TXTN, SL_ASCII | SL_2B, "xZ ", NULL);
@@ -69,8 +69,19 @@ void harness(void)
 		reps = symx_conc(symx_u8("reps") % NCNT);	/* 0: '.', 1: '2.', 2: '3.' (only after a change without its own count) */
 		symx_assume(!cnt || !reps);
 		(void) tl;
+		/* a motion that fails just before the change (and would succeed where the change is repeated) is not part of it */
+		{
+			static const char *junks[] = {"", "fQ", "tQ", "'q"};
+			int jk = symx_u8("junk") % 4;
+#ifndef JUNKALL
+			symx_assume(!jk || (!cnt && !reg && !reps));	/* quick tier: only with the plain form of the change */
+#endif
+			jk = symx_conc(jk);
+			strcpy(junk, junks[jk]);
+		}
 		/* A: start position, change, repeat */
 		nA = add(keysA, 0, "1Gyy2Gw");
+		nA = add(keysA, nA, junk);
 		nA = add(keysA, nA, pre);
 		nA = add(keysA, nA, chg);
 		nA = add(keysA, nA, "j0");
@@ -79,6 +90,7 @@ void harness(void)
 		keysA[nA++] = '.';
 		/* B: the same, retyped */
 		nB = add(keysB, 0, "1Gyy2Gw");
+		nB = add(keysB, nB, junk);
 		nB = add(keysB, nB, pre);
 		nB = add(keysB, nB, chg);
 		nB = add(keysB, nB, "j0");
@@ -112,7 +124,7 @@ void harness(void)
 			nB -= 3;
 			nB = add(keysB, nB, "lx\n\n");
 		}
-		(void) n; (void) pre; (void) pn; (void) reps; (void) i;
+		(void) n; (void) pre; (void) pn; (void) reps; (void) i; (void) junk;
 	}
 #endif
 	/* the observation tail: marker at the cursor, unnamed register at the end, write */
